@@ -389,6 +389,26 @@ quantity = "mass"
 unspecified = [ { names = ["knob"], symbols = ["knb"], ratio = 15 } ]
 "#;
 
+/// a third configuration: strict limits at the general levels, bare toggles above them (a toggle only
+/// switches on or off: the limits still come from the levels below)
+const STRICT_LAYER: &str = r#"
+[fractions]
+all = { enabled = true, accuracy = 0.01, max_denominator = 2, max_whole = 3 }
+imperial = { enabled = true, max_denominator = 2, max_whole = 3 }
+metric = { enabled = true, max_denominator = 3, max_whole = 2 }
+[fractions.quantity]
+mass = true
+length = false
+[fractions.unit]
+cup = true
+lb = true
+ml = true
+oz = { accuracy = 0.1 }
+g = { max_whole = 7 }
+m = { enabled = true }
+tsp = false
+"#;
+
 type FracTable = Vec<(String, (bool, f32, u8, u32))>;
 
 /// (converter, (enabled, accuracy, max denominator, max whole) per unit symbol) for units.toml alone and for
@@ -399,35 +419,66 @@ type FracTable = Vec<(String, (bool, f32, u8, u32))>;
 static CONFIGS: std::sync::LazyLock<Result<Vec<(cooklang::Converter, FracTable)>, String>> = std::sync::LazyLock::new(|| {
     let text = std::fs::read_to_string(repo_dir().join("units.toml")).map_err(|e| format!("cannot read units.toml: {e}"))?;
     let mut out = vec![];
-    for layered in [false, true] {
+    for layer in [None, Some(FRACTIONS_LAYER), Some(STRICT_LAYER)] {
         let mut files: Vec<UnitsFile> = vec![toml::from_str(&text).map_err(|e| format!("units.toml: {e}"))?];
-        if layered {
-            files.push(toml::from_str(FRACTIONS_LAYER).map_err(|e| format!("fractions layer: {e}"))?);
+        if let Some(layer) = layer {
+            files.push(toml::from_str(layer).map_err(|e| format!("fractions layer: {e}"))?);
         }
         let mut b = cooklang::convert::ConverterBuilder::new();
         for f in files.clone() {
             b.add_units_file(f).map_err(|e| format!("the builder rejects the fractions layer: {e}"))?;
         }
         let conv = b.finish().map_err(|e| format!("the builder rejects the fractions layer: {e}"))?;
-        type H = cooklang::convert::units_file::FractionsConfigHelper;
+        // the settings are read from the TOML text by the harness, not through the crate's own
+        // `FractionsConfigWrapper::get` / `FractionsConfigHelper`: a bare toggle sets `enabled` and nothing else
+        #[derive(Clone, Copy, Default)]
+        struct H {
+            enabled: Option<bool>,
+            accuracy: Option<f32>,
+            max_denominator: Option<u8>,
+            max_whole: Option<u32>,
+        }
+        let read = |v: &toml::Value| -> H {
+            match v {
+                toml::Value::Boolean(b) => H { enabled: Some(*b), ..H::default() },
+                toml::Value::Table(t) => H {
+                    enabled: t.get("enabled").and_then(|x| x.as_bool()),
+                    accuracy: t.get("accuracy").and_then(|x| x.as_float().or(x.as_integer().map(|i| i as f64))).map(|f| f as f32),
+                    max_denominator: t.get("max_denominator").and_then(|x| x.as_integer()).map(|i| i as u8),
+                    max_whole: t.get("max_whole").and_then(|x| x.as_integer()).map(|i| i as u32),
+                },
+                _ => H::default(),
+            }
+        };
         let merge = |a: H, b: H| H { enabled: a.enabled.or(b.enabled), accuracy: a.accuracy.or(b.accuracy), max_denominator: a.max_denominator.or(b.max_denominator), max_whole: a.max_whole.or(b.max_whole) };
         let define = |h: H| (h.enabled.unwrap_or(false), h.accuracy.unwrap_or(0.05).clamp(0.0, 1.0), h.max_denominator.unwrap_or(4).clamp(1, 16), h.max_whole.unwrap_or(u32::MAX));
-        let layers: Vec<cooklang::convert::units_file::Fractions> = files.into_iter().filter_map(|f| f.fractions).collect();
-        let last = |pick: &dyn Fn(&cooklang::convert::units_file::Fractions) -> Option<H>| layers.iter().rev().find_map(|l| pick(l));
+        let mut texts: Vec<&str> = vec![&text];
+        texts.extend(layer);
+        let mut layers: Vec<toml::Value> = vec![];
+        for t in &texts {
+            let v: toml::Value = toml::from_str(t).map_err(|e| format!("units file as TOML value: {e}"))?;
+            if let Some(f) = v.get("fractions") {
+                layers.push(f.clone());
+            }
+        }
+        let _ = &files;
+        let quantity_name = |q: cooklang::convert::PhysicalQuantity| q.to_string().to_lowercase();
+        let last = |pick: &dyn Fn(&toml::Value) -> Option<H>| layers.iter().rev().find_map(|l| pick(l));
         let mut table = vec![];
         for u in conv.all_units() {
+            let qname = quantity_name(u.physical_quantity);
             let general: Vec<H> = [
-                last(&|l| l.quantity.get(&u.physical_quantity).map(|c| c.get())),
+                last(&|l| l.get("quantity").and_then(|q| q.get(&qname)).map(read)),
                 u.system.and_then(|s| match s {
-                    System::Metric => last(&|l| l.metric.map(|c| c.get())),
-                    System::Imperial => last(&|l| l.imperial.map(|c| c.get())),
+                    System::Metric => last(&|l| l.get("metric").map(read)),
+                    System::Imperial => last(&|l| l.get("imperial").map(read)),
                 }),
-                last(&|l| l.all.map(|c| c.get())),
+                last(&|l| l.get("all").map(read)),
             ]
             .into_iter()
             .flatten()
             .collect();
-            let own = layers.iter().rev().find_map(|l| l.unit.iter().find(|(k, _)| conv.find_unit(k).is_some_and(|f| *f == *u)).map(|(_, c)| c.get()));
+            let own = layers.iter().rev().find_map(|l| l.get("unit").and_then(|t| t.as_table()).and_then(|t| t.iter().find(|(k, _)| conv.find_unit(k).is_some_and(|f| *f == *u)).map(|(_, c)| read(c))));
             let cfg = match own {
                 Some(c) => define(general.iter().fold(c, |acc, g| merge(acc, *g))),
                 None => define(general.first().copied().unwrap_or_default()),
@@ -441,9 +492,10 @@ static CONFIGS: std::sync::LazyLock<Result<Vec<(cooklang::Converter, FracTable)>
 
 fn check_caller(c: &CallerCase, st: &mut Stats) -> Verdict {
     let configs = CONFIGS.as_ref().map_err(|e| Violation::new("c12.infrastructure", e.clone()))?;
-    // odd targets use the layered configuration
-    let (conv, table) = &configs[(c.target as usize / 7) % 2];
-    let layered = (c.target as usize / 7) % 2 == 1;
+    // the configuration is picked by the target: units.toml alone, + the layer with explicit limits, + the strict layer under toggles
+    let (conv, table) = &configs[(c.target as usize / 7) % 3];
+    let layered = (c.target as usize / 7) % 3 != 0;
+    st.class_if((c.target as usize / 7) % 3 == 2, "units.toml + strict general levels under bare toggles");
     let units: Vec<_> = conv.all_units().collect();
     let u = units[c.unit as usize % units.len()];
     let keys: Vec<String> = u.names.iter().chain(&u.symbols).chain(&u.aliases).map(|k| k.to_string()).collect();
